@@ -95,7 +95,9 @@ fn run(ctx: &mut Ctx) {
                 return;
             }
         };
-        let sizes = [1usize, 2, 3, 7, 52, 53, 100, 1400, payload.len(), payload.len() + 5, 65535, 1 + rng.usize(payload.len()), (payload.len() + 5) / 6, (payload.len() + 3) / 4, (payload.len() + 1) / 2, (payload.len() + 2) / 3];
+        // (the last four leave a final chunk that holds exactly the 4-byte end marker, or one byte less / more)
+        let body = payload.len() - 4;
+        let sizes = [1usize, 2, 3, 7, 52, 53, 100, 1400, payload.len(), payload.len() + 5, 65535, 1 + rng.usize(payload.len()), (payload.len() + 5) / 6, (payload.len() + 3) / 4, (payload.len() + 1) / 2, (payload.len() + 2) / 3, body, if body % 2 == 0 { body / 2 } else { body }, if body % 3 == 0 { body / 3 } else { body - 1 }, body + 1];
         let cs = sizes[rng.usize(sizes.len())].max(1);
         let nchunks = (payload.len() + cs - 1) / cs;
         if nchunks > ctx.tier.pick(120, 400) {
